@@ -16,7 +16,10 @@ public:
 template<>
 SafeInt Converter<SafeInt>::getValue(Number const & val) {
     assert(val.isInteger());
-    return SafeInt(static_cast<ptrdiff_t>(val.get_d()));
+    // Convert exactly: going through double loses precision above 2^53 and is undefined above 2^63
+    mpz_class const num = val.getMpq().get_num();
+    if (not num.fits_slong_p()) { throw std::overflow_error("Constant out of range of the difference logic solver"); }
+    return SafeInt(static_cast<ptrdiff_t>(num.get_si()));
 }
 
 template<>
